@@ -164,10 +164,10 @@ static void build_world(void)
     /* int f(int): an expectation without RETURN/THROW does not compile unless it is forbidding (C19 type-state) */
     __CPROVER_assume(in_hasret[i] || in_max[i] == 0);
     if (in_hasret[i]) {
-      reth[i] = VP_NEW(struct RETH);
+      struct RETHT *rt = VP_NEW(struct RETHT); reth[i] = &rt->_b0;   /* the real return_handler_t<Sig,F> around the user's RETURN expression (functor stub) */
       in_rthrow[i] = nondet_int(); __CPROVER_assume(in_rthrow[i] == 0 || in_rthrow[i] == VP_EXC_USER_STD || in_rthrow[i] == VP_EXC_USER_OTHER);
       in_rval[i] = nondet_int();
-      reth[i]->g_throws = in_rthrow[i]; reth[i]->g_value = in_rval[i]; reth[i]->vp_tag = VP_TAG_USER_S_return_handler_int_int;
+      reth[i]->g_throws = in_rthrow[i]; reth[i]->g_value = in_rval[i]; reth[i]->vp_tag = VP_TAGOF(RETHT);
       cm[i]->return_handler_obj = reth[i];
     } else cm[i]->return_handler_obj = 0;
   }
